@@ -51,8 +51,17 @@ def run(ctx):
                                       "staticeval", "go depth 3", "setoption name Polyglot Sample value best", "setoption name Polyglot Book value /nonexistent/book.bin",
                                       "go depth 2", "setoption name Polyglot Book value", "setoption name Logfile value", "ponderhit", "stop", "isready"]))
     scripts.append(("game beyond 800 plies", ["position startpos moves " + " ".join(shuffle), "go depth 2", "printboard", "position startpos moves " + " ".join(shuffle[:1000]), "go movetime 20"]))
+    # every limit shape at the long-game / high-move-number boundary (the clock branch is the only caller of the time manager)
+    CLOCKED = ["go wtime 300 btime 300", "go wtime 400 btime 400 movestogo 1", "go wtime 400 btime 400 winc 50 binc 50 movestogo 200",
+               "go wtime 200 btime 200 winc 1000 binc 1000", "go nodes 3000", "go movetime 15"]
+    scripts.append(("game beyond 800 plies, clocked go", ["position startpos moves " + " ".join(shuffle[:1036])] + CLOCKED))
+    scripts.append(("game of 806 plies, clocked go", ["position startpos moves " + " ".join(shuffle[:806])] + CLOCKED[:3]))
+    for fm in (403, 450, 1000, 3000, 5900):
+        for stm in "wb":
+            scripts.append(("FEN with full-move number %d, clocked go" % fm,
+                            ["position fen r1bqkbnr/pppp1ppp/2n5/4p3/4P3/5N2/PPPP1PPP/RNBQKB1R %s KQkq - 2 %d" % (stm, fm)] + CLOCKED[:4] + ["position fen 8/8/8/4k3/8/4K3/8/8 %s - - 0 %d" % (stm, fm), CLOCKED[0], CLOCKED[1]]))
     for f, ms in long_games:
-        scripts.append(("long game", ["position startpos moves " + " ".join(ms), "go depth 3", "isready"]))
+        scripts.append(("long game", ["position startpos moves " + " ".join(ms), "go depth 3", rng.choice(CLOCKED), "isready"]))
     scripts.append(("depth above the internal maximum", sum([["position fen " + f, "go depth %d" % d] for f in instant for d in (40, 41, 60, 1000)], [])))
     scripts.append(("218 legal moves", ["position fen " + P218, "go depth 2", "go depth 1 searchmoves a3a2 h8h1 d7d8", "perft 1", "staticeval"]))
     for f in many:
@@ -108,7 +117,7 @@ def run(ctx):
     ctx.cov["distinct_nontrivial"] = nsess + len(sessions)
     ctx.sample({"session": scripts[0][0], "commands": scripts[0][1][:8]})
     ctx.sample({"session": scripts[3][0], "commands": scripts[3][1][:6]})
-    ctx.cov["rule"] = ("%d UCI sessions (%d commands) on the ASan+UBSan build of the real binary: every UCI command, games of 1040 and several hundred plies, go depth "
+    ctx.cov["rule"] = ("%d UCI sessions (%d commands) on the ASan+UBSan build of the real binary: every UCI command, games of 1040 and several hundred plies (depth-, time-, clock-, movestogo- and node-limited go after them), FENs with full-move numbers 403..5900 followed by clocked go, go depth "
                        "40/41/60/1000, the 218-move position (search, searchmoves with 3 and with all 218 moves, perft, staticeval), positions with >= 64 legal moves at "
                        "depth 5, ten pieces of one kind, ucinewgame cycles, book option set/cleared; %d in-process sessions (%d searches, poisoned tables, stops after k "
                        "visits) on the sanitizer build.  A sanitizer report, a non-zero exit or a missing bestmove is a violation.  Extents of every fixed-size buffer are "
